@@ -8,7 +8,7 @@ use serde::de::DeserializeOwned;
 use serde_json::Value;
 use std::collections::HashMap;
 use std::io::ErrorKind;
-use std::sync::atomic::{AtomicU64, Ordering};
+use std::sync::atomic::{AtomicBool, AtomicU64, Ordering};
 use std::sync::{Arc, Mutex as StdMutex};
 use tokio::net::TcpStream;
 use tokio::sync::mpsc;
@@ -42,6 +42,10 @@ struct WebSocketClientInner {
     limits: crate::WebSocketLimits,
     pending: StdMutex<PendingRequests>,
     next_id: AtomicU64,
+    /// Set by the reader once the connection failed. Checked before a caller
+    /// queues for the `writer` lock, which another task may hold for as long
+    /// as its send is stalled.
+    closed: AtomicBool,
     /// Unbounded sender for inbound notify messages (any header whose
     /// `notify` flag is non-zero). `None` while no subscriber is
     /// registered; the response loop drops notifies in that case. At
@@ -158,6 +162,7 @@ impl WebSocketClient {
             limits,
             pending: StdMutex::new(HashMap::new()),
             next_id: AtomicU64::new(1),
+            closed: AtomicBool::new(false),
             notify_tx: StdMutex::new(None),
         });
 
@@ -615,6 +620,12 @@ impl WebSocketClient {
         // connection, so without this the caller loses the socket and never
         // learns why.
         self.inner.limits.check_outbound(bytes.len())?;
+        if self.inner.closed.load(Ordering::Acquire) {
+            return Err(RepeError::Io(std::io::Error::new(
+                ErrorKind::BrokenPipe,
+                "connection closed",
+            )));
+        }
         let mut writer = self.inner.writer.lock().await;
         #[cfg(feature = "verif-hooks")]
         crate::verif_hooks::probe("ws_client.write.locked", msg.header.id);
@@ -862,15 +873,25 @@ async fn fail_all_pending(inner: &std::sync::Weak<WebSocketClientInner>, err: Re
     // The subscriber should not wait on it to learn the connection is gone.
     take_notify_sender(&inner_ref);
 
+    // Neither should callers: later calls fail without queueing for the writer
+    // lock, and the calls in flight are failed before `close_writer`.
+    inner_ref.closed.store(true, Ordering::Release);
+    fail_waiters(&inner_ref, &err);
+
     let _ = close_writer(&inner_ref).await;
 
+    // Again, for calls that registered and wrote before the writer was closed.
+    fail_waiters(&inner_ref, &err);
+}
+
+fn fail_waiters(inner: &WebSocketClientInner, err: &RepeError) {
     let waiters = {
-        let mut pending = lock_pending_map(&inner_ref.pending);
+        let mut pending = lock_pending_map(&inner.pending);
         pending.drain().collect::<Vec<_>>()
     };
 
     for (request_id, sender) in waiters {
-        let _ = sender.send(Err(clone_fatal_error_for_waiter(&err, request_id)));
+        let _ = sender.send(Err(clone_fatal_error_for_waiter(err, request_id)));
     }
 }
 
